@@ -264,7 +264,7 @@ def run(prog: Program, res: Result, tier: str) -> None:
     why = "unrecognised selection"
     if len(cws) == 1:
         c = cws[0]
-        a = op.flow.expand(c.args[0], op.cfg.node_for(c), stop={"iband_chanstart"})
+        a = op.flow.expand(c.args[0], op.cfg.node_for(c), stop={"iband_chanstart", "chanpersub"})
         enum = parent(parent(c))
         idx = enum.target.elts[0].id if isinstance(enum, ast.For) and isinstance(enum.target, ast.Tuple) else None
         want = f"{lp.data}.reshape({lp.count}, self.header.nchans)[:, iband_chanstart:iband_chanstart + chanpersub].ravel()"
